@@ -76,8 +76,9 @@ impl Mesh1D<f64, f64> {
                 let delta_x: f64 = x_pos - self.nodes[ node ];
                 let left = self.get_nodes_vars( node );
                 let right = self.get_nodes_vars( node + 1 );
-                let deriv = (right - left.clone()) / ( self.nodes[ node + 1 ] - self.nodes[ node ] );
-                result = left + deriv * delta_x;
+                // convex combination: exact at both end nodes ( t = 0 and t = 1 )
+                let t = delta_x / ( self.nodes[ node + 1 ] - self.nodes[ node ] );
+                result = left * ( 1.0 - t ) + right * t;
             }
         }
         result
